@@ -159,6 +159,65 @@ func cleanupRule(n ast.Node) string {
 	return "keep " + local + " or " + age
 }
 
+// singleWriteLock reports whether an AddRoute function does its
+// "do we already have a route from this origin" probe and its insert inside
+// ONE write-lock region: exactly one <mu>.Lock() statement followed by a
+// deferred Unlock, no RLock/RUnlock anywhere, and every range loop that
+// compares OriginAgent comes after the Lock statement.
+func singleWriteLock(fd *ast.FuncDecl) bool {
+	if fd == nil || fd.Body == nil {
+		return false
+	}
+	locks, rlocks, unlocksOutsideDefer := 0, 0, 0
+	var lockPos token.Pos
+	deferred := false
+	ast.Inspect(fd.Body, func(n ast.Node) bool {
+		switch x := n.(type) {
+		case *ast.DeferStmt:
+			if strings.HasSuffix(src(x.Call.Fun), ".Unlock") {
+				deferred = true
+				return false
+			}
+		case *ast.CallExpr:
+			f := src(x.Fun)
+			switch {
+			case strings.HasSuffix(f, ".RLock"), strings.HasSuffix(f, ".RUnlock"), strings.HasSuffix(f, ".TryLock"), strings.HasSuffix(f, ".TryRLock"):
+				rlocks++
+			case strings.HasSuffix(f, ".Lock"):
+				locks++
+				lockPos = x.Pos()
+			case strings.HasSuffix(f, ".Unlock"):
+				unlocksOutsideDefer++
+			}
+		}
+		return true
+	})
+	if locks != 1 || rlocks != 0 || unlocksOutsideDefer != 0 || !deferred {
+		return false
+	}
+	ok, probes := true, 0
+	ast.Inspect(fd.Body, func(n ast.Node) bool {
+		if rs, isRange := n.(*ast.RangeStmt); isRange && strings.Contains(src(rs.Body), ".OriginAgent") {
+			probes++
+			if rs.Pos() < lockPos {
+				ok = false
+			}
+		}
+		return true
+	})
+	// the map/slice of the key is not read before the lock either
+	for _, st := range fd.Body.List {
+		if st.Pos() >= lockPos {
+			break
+		}
+		t := src(st)
+		if strings.Contains(t, "[key]") || strings.Contains(t, ".routes[") || strings.Contains(t, "Routes[") || strings.Contains(t, "wildcardBase[") {
+			ok = false
+		}
+	}
+	return ok && probes == 1
+}
+
 func routingFn(file, recv, name string) *ast.FuncDecl {
 	return findFunc(parseFile("internal/routing/"+file), recv, name)
 }
@@ -200,6 +259,7 @@ func genC08(g *gen) {
 			strings.Count(s, "cloned.Network = network") == 2 && !strings.Contains(s, p+".Network.String()")
 	}
 	g.line("Definition gen_addroute_keys_by_canonical_network : bool := %s.", coqBool(canon))
+	g.line("Definition gen_cidr_addroute_probe_and_insert_under_one_write_lock : bool := %s.", coqBool(singleWriteLock(add)))
 	cn := routingFn("table.go", "", "canonicalNetwork")
 	g.line("Definition gen_canonical_is_parsecidr_of_printed : bool := %s.", coqBool(cn != nil && strings.Contains(src(cn), "net.ParseCIDR(network.String())")))
 	rm := routingFn("table.go", "Table", "RemoveRoute")
@@ -253,6 +313,11 @@ func genC09(g *gen) {
 		return fd != nil && strings.Contains(src(fd), "return routes[0].Clone()")
 	}
 	g.line("Definition gen_keyed_lookups_return_bucket_head : bool := %s.", coqBool(hd("forward.go", "ForwardTable") && hd("agent.go", "AgentTable")))
+	g.line("(* order: domain table, forward table, agent table *)")
+	g.line("Definition gen_addroute_probe_and_insert_under_one_write_lock : list bool := [%s; %s; %s].",
+		coqBool(singleWriteLock(routingFn("domain.go", "DomainTable", "AddRoute"))),
+		coqBool(singleWriteLock(routingFn("forward.go", "ForwardTable", "AddRoute"))),
+		coqBool(singleWriteLock(routingFn("agent.go", "AgentTable", "AddRoute"))))
 	if !lowers || !single {
 		g.note("DomainTable.lookupUnlocked pattern not recognised")
 	}
@@ -292,6 +357,36 @@ func genC10(g *gen) {
 	}
 	g.line("(* order: CIDR table, domain table, forward table, agent table *)")
 	g.line("Definition gen_update_rule : list string := %s.", coqStrListRouting(rules))
+	{
+		var bs []string
+		for _, t := range tabs {
+			bs = append(bs, coqBool(singleWriteLock(routingFn(t.file, t.recv, "AddRoute"))))
+		}
+		g.line("Definition gen_addroute_atomic : list bool := [%s].", strings.Join(bs, "; "))
+	}
+	// the next hop of a learned route is the delivering peer, in all four Process*Advertise
+	{
+		mf := parseFile("internal/routing/manager.go")
+		var bs []string
+		for _, n := range []string{"ProcessRouteAdvertise", "ProcessDomainRouteAdvertise", "ProcessForwardRouteAdvertise", "ProcessAgentRouteAdvertise"} {
+			fd := findFunc(mf, "Manager", n)
+			ok := false
+			if fd != nil {
+				p := firstParam(fd)
+				cnt := 0
+				ast.Inspect(fd, func(x ast.Node) bool {
+					if kv, isKV := x.(*ast.KeyValueExpr); isKV && src(kv.Key) == "NextHop" {
+						cnt++
+						ok = src(kv.Value) == p
+					}
+					return true
+				})
+				ok = ok && cnt == 1
+			}
+			bs = append(bs, coqBool(ok))
+		}
+		g.line("Definition gen_learned_nexthop_is_delivering_peer : list bool := [%s].", strings.Join(bs, "; "))
+	}
 	g.line("Definition gen_loop_check : list string := %s.", coqStrListRouting(loops))
 	g.line("Definition gen_peer_filter : list string := %s.", coqStrListRouting(peers))
 	g.line("Definition gen_cleanup_rule : list string := %s.", coqStrListRouting(cleans))
